@@ -16,7 +16,8 @@ type Fault struct {
 
 var interesting = []byte{0x00, 0xff, 0x7f, 0x80, '"', '\\', '[', ']', '{', '}', '#', '$', 'N', 'S', 'H', 'L', 'l', 'I', 'U', 'i', 'Z', 'T', 'F', 'C', 'd', 'D',
 	0x1f, 0x3c, 0x5f, 0x7f, 0x9f, 0xbf, 0xdf, 0xff, 0xc0, 0xf9, 0x1c, 0x1d, 0x1e, 0x18, 0x19, 0x1a, 0x1b, 0x3b, 0x5b, 0x7b, 0x9b, 0xbb, 0xfa, 0xfb,
-	'u', 'e', 'E', '-', '+', '.', ',', ':', ' ', 't', 'f', 'n', '0', '9'}
+	'u', 'e', 'E', '-', '+', '.', ',', ':', ' ', 't', 'f', 'n', '0', '9',
+	0x85, 0xa0, 0x0b, 0x0c, 0x1c, 0x1d, 0x1e, 0x1f, 0x09, 0x0a, 0x0d, 0xc2, 0xe2, 0xef, 0xbb, 0xbf}
 
 // Corrupt applies n seeded corruptions to a copy of doc and returns the result.
 func Corrupt(c *simkit.Choices, doc *model.Doc, n int, st *simkit.Stats) ([]byte, []Fault) {
@@ -42,6 +43,33 @@ func Corrupt(c *simkit.Choices, doc *model.Doc, n int, st *simkit.Stats) ([]byte
 			}
 		}
 		f := Fault{Pos: pos}
+		if doc.Format == string(model.JSON) && c.N(6) == 0 {
+			// a byte that some whitespace tests accept and others do not
+			// (Latin-1 NEL / NBSP, VT, FF, the separators 0x1c-0x1f), placed
+			// next to ordinary whitespace or punctuation
+			var spots []int
+			for _, t := range doc.Tokens {
+				if (t.Kind == "ws" || t.Kind == "punct") && t.E <= len(b) {
+					spots = append(spots, t.S, t.E)
+				}
+			}
+			if len(spots) > 0 {
+				at := spots[c.N(len(spots))]
+				odd := []byte{0x85, 0xa0, 0x0b, 0x0c, 0x1c, 0x1f, ' ', 0x09}[c.N(8)]
+				ins := []byte{odd}
+				if c.Bool() {
+					ins = []byte{' ', odd} // right after an ordinary space
+				}
+				nb := append([]byte{}, b[:at]...)
+				nb = append(nb, ins...)
+				nb = append(nb, b[at:]...)
+				b = nb
+				f.Kind, f.Pos, f.Arg = "json-odd-whitespace", at, int(odd)
+				st.Fault("corrupt-" + f.Kind)
+				faults = append(faults, f)
+				continue
+			}
+		}
 		if doc.Format == string(model.JSON) && c.N(4) == 0 {
 			// a broken escape inside a string token, optionally moved right in
 			// front of the closing quote (the rest of the string is dropped)
